@@ -9,17 +9,35 @@ Definition mkctxs (cs : list (list string * list (string * string))) :=
 Definition mkrow (r : string * string * string * bool * bool) : row :=
   let '(a, b, c, d, e) := r in mkRow (hx a) (hx b) (hx c) d e.
 
+(* modelled cases carry an input for the model; equality-only cases (unmodelled helpers, the CLI)
+   carry nothing: the observation itself is the list of groups that must be equal *)
+Inductive xin := XModel (i : cin) | XEq.
+Definition xobs := (obs + list (list bytes))%type.
+
 (* c timed funcs template contexts | observed: names, loader errors, rows, concurrent=sequential *)
 Definition c (timed : bool) (funcs tmpl : string) (cs : list (list string * list (string * string)))
              (names : list string) (nerr : N) (rows : list (string * string * string * bool * bool))
-             (conc : bool) : cin * obs :=
-  (mkIn (hx funcs) (hx tmpl) (mkctxs cs) timed,
-   Some (map hx names, N.to_nat nerr, map mkrow rows, conc)).
+             (conc : bool) : xin * xobs :=
+  (XModel (mkIn (hx funcs) (hx tmpl) (mkctxs cs) timed),
+   inl (Some (map hx names, N.to_nat nerr, map mkrow rows, conc))).
 (* the implementation panicked or did not finish *)
 Definition cP (timed : bool) (funcs tmpl : string) (cs : list (list string * list (string * string)))
-  : cin * obs := (mkIn (hx funcs) (hx tmpl) (mkctxs cs) timed, None).
+  : xin * xobs := (XModel (mkIn (hx funcs) (hx tmpl) (mkctxs cs) timed), inl None).
+(* ce groups: every group lists outputs that must be equal *)
+Definition ce (groups : list (list string)) : xin * xobs := (XEq, inr (map (map hx) groups)).
 
-Definition model := C10Check.model.
-Definition oeqb := obs_eqb.
-Definition check := C10_check.
+Definition model (x : xin) : xobs :=
+  match x with XModel i => inl (C10Check.model i) | XEq => inr [] end.
+Definition oeqb (a b : xobs) : bool :=
+  match a, b with
+  | inl a, inl b => obs_eqb a b
+  | inr _, inr _ => true            (* no prediction *)
+  | _, _ => false
+  end.
+Definition check (x : xin) (o : xobs) : bool :=
+  match x, o with
+  | XModel i, inl o => C10_check i o
+  | XEq, inr groups => C10_eq_check groups
+  | _, _ => false
+  end.
 Definition mm := mismatches model oeqb check.
